@@ -145,7 +145,7 @@ PROPS = {
             "consumed <= gasLimit (checked by the code) and minGasMultiplier <= 1 (Params.Validate)",
             "multi-message Ethereum txs are sums of single-message settlements (the decorators loop over the messages)",
         ],
-        "level_text": "Machine-checked proofs (Lean 4) that an accepted Cosmos or Ethereum fee is at least minGasPrice x gasLimit, that an Ethereum tx with fee cap below the base fee is refused, that gasUsed = max(floor(multiplier x limit), consumed - refund) never exceeds the limit, and that deduction minus refund is exactly gasUsed x effectivePrice; tied to the real decorators / VerifyFee on boundary tuples and to real signed Ethereum transactions through DeliverTx with sender and fee-collector deltas measured.",
+        "level_text": "Machine-checked proofs (Lean 4) that an accepted Cosmos or Ethereum fee is at least minGasPrice x gasLimit — for a Cosmos transaction carrying the dynamic-fee option also the amount actually charged (kernel-checked counterexample for the code before cda7d87) —, that an Ethereum tx with fee cap below the base fee is refused, that gasUsed = max(floor(multiplier x limit), consumed - refund) never exceeds the limit, and that deduction minus refund is exactly gasUsed x effectivePrice; tied to the real decorators / VerifyFee on boundary tuples and to real signed Ethereum transactions through DeliverTx with sender and fee-collector deltas measured.",
         "level_note": "Trusted: Lean kernel; correspondence harness; EVM gas consumption is an input of the model.",
         "technique": "Lean 4 arithmetic proofs (omega over floor/ceil division) + differential correspondence on real transactions",
         "explanation": "Floors, VerifyFee and the gasUsed/refund arithmetic modelled and proved; real transfers, storage set/clear (refund), reverts and out-of-gas runs are delivered and their gasUsed, sender payment and collector gain compared with the model and with independent big.Int monitors.",
